@@ -451,3 +451,330 @@ End VF.
 Lemma validate_model fields h2f f2h d :
   validate (TModel fields h2f f2h) (ODict d) = rmap VModel (validate_fields d fields).
 Proof. reflexivity. Qed.
+
+(* ================================================================== D. leaves *)
+(* a basic value's text reads back *)
+Lemma basic_decode t v s :
+  is_basic_ty t = true -> basic_ok t v = true -> basic_text t v = Ok s ->
+  strip s = s /\ assign_value t (Str s) = Ok (Some (enc t v)).
+Proof.
+  intros Ht Hok Hs. destruct t; try discriminate; destruct v; try discriminate;
+    cbn [basic_text basic_ok enc] in *; injection Hs as <-.
+  - split; [apply trimmedb_strip, Hok|reflexivity].
+  - split; [apply strip_numch, print_Z_numch|]. cbn [assign_value]. rewrite parse_int_print_Z. reflexivity.
+  - split; [apply float_canon_strip, Hok|]. cbn [assign_value]. rewrite (parse_float_canon _ Hok). reflexivity.
+  - destruct b; (split; [vm_compute; reflexivity|vm_compute; reflexivity]).
+Qed.
+
+Lemma to_nv_basic t v : is_basic_ty t = true -> to_nv t v = rmap Str (basic_text t v).
+Proof. intros Ht. destruct t; try discriminate; destruct v; reflexivity. Qed.
+
+Lemma leaf_basic t v s cur :
+  is_basic_ty t = true -> basic_ok t v = true -> write_text t v = Ok s ->
+  leaf_assign t (Raw s) cur = Ok (enc t v).
+Proof.
+  intros Ht Hok Hs. unfold write_text in Hs. rewrite Ht in Hs.
+  destruct (basic_decode t v s Ht Hok Hs) as [H1 H2].
+  unfold leaf_assign, leaf_value.
+  replace (is_list_ty t || is_model_ty t) with false by (destruct t; try discriminate; reflexivity).
+  rewrite H1, H2. reflexivity.
+Qed.
+
+(* ---- the joined text of trimmed strings is trimmed (so CellParser.parse's strip is inert) *)
+Lemma trimmedb_app_sep a sep b :
+  trimmedb a = true -> trimmedb b = true -> is_ws sep = false -> trimmedb (a ++ sep :: b) = true.
+Proof.
+  intros Ha Hb Hs.
+  assert (Hl : forall d, is_ws (last (a ++ sep :: b) d) = false).
+  { intros d. rewrite last_app_cons. destruct b as [|y b']; [exact Hs|].
+    change (last (sep :: y :: b') d) with (last (y :: b') d).
+    unfold trimmedb in Hb. apply andb_true_iff in Hb as [_ Hb]. apply negb_true_iff in Hb.
+    rewrite (last_indep _ d y) by discriminate. exact Hb. }
+  destruct a as [|x a'].
+  - cbn [app]. unfold trimmedb. rewrite Hs. specialize (Hl sep). cbn [app] in Hl. rewrite Hl. reflexivity.
+  - rewrite <- app_comm_cons. unfold trimmedb. rewrite app_comm_cons, Hl.
+    unfold trimmedb in Ha. apply andb_true_iff in Ha as [Ha _]. rewrite Ha. reflexivity.
+Qed.
+
+Lemma trimmedb_join_char sep ps :
+  is_ws sep = false -> Forall (fun p => trimmedb p = true) ps -> trimmedb (join_char sep ps) = true.
+Proof.
+  intros Hs. induction 1 as [|p r Hp Hr IH]; [reflexivity|].
+  destruct r as [|q r']; [exact Hp|].
+  change (join_char sep (p :: q :: r')) with (p ++ sep :: join_char sep (q :: r')).
+  apply trimmedb_app_sep; assumption.
+Qed.
+
+Lemma trimmedb_escape s : trimmedb s = true -> trimmedb (escape s) = true.
+Proof.
+  intros H. apply strip_trimmedb. rewrite strip_escape_commute, (trimmedb_strip s H). reflexivity.
+Qed.
+
+Lemma sep_at_ws d sep : sep_at d = Some sep -> is_ws sep = false.
+Proof.
+  destruct d as [|[|d']]; cbn; intros H; try discriminate; injection H as <-; [apply ws_sep0|apply ws_sep1].
+Qed.
+
+Section JoinAll.
+  Variable d : nat.
+  Fixpoint join_all (l : list nv) : option (list str) :=
+    match l with
+    | [] => Some []
+    | x :: r => match join_from_lists d x, join_all r with
+                | Some a, Some t => Some (a :: t)
+                | _, _ => None
+                end
+    end.
+End JoinAll.
+
+Lemma join_from_lists_Lst depth l :
+  join_from_lists depth (Lst l) =
+  match sep_at depth with
+  | None => None
+  | Some sep => match join_all (S depth) l with
+                | None => None
+                | Some [p] => Some (p ++ [sep])
+                | Some ps => Some (join_char sep ps)
+                end
+  end.
+Proof. reflexivity. Qed.
+
+Lemma join_trimmed x : forall d txt,
+  nv_trimmed x = true -> join_from_lists d x = Some txt -> trimmedb txt = true.
+Proof.
+  induction x as [s|l IH] using nv_ind'; intros d txt Ht Hj.
+  - cbn [join_from_lists] in Hj. injection Hj as <-. rewrite escape_string_one_pass.
+    apply trimmedb_escape. exact Ht.
+  - rewrite join_from_lists_Lst in Hj. destruct (sep_at d) as [sep|] eqn:Es; [|discriminate].
+    pose proof (sep_at_ws d sep Es) as Hws.
+    assert (Hall : forall ps, join_all (S d) l = Some ps -> Forall (fun p => trimmedb p = true) ps).
+    { cbn [nv_trimmed] in Ht. clear Hj. induction IH as [|x r Hx Hr IHr]; intros ps Hps.
+      - injection Hps as <-. constructor.
+      - cbn [join_all] in Hps. cbn [forallb] in Ht. apply andb_true_iff in Ht as [Ht1 Ht2].
+        destruct (join_from_lists (S d) x) as [a|] eqn:Ea; [|discriminate].
+        destruct (join_all (S d) r) as [t|] eqn:Et; [|discriminate]. injection Hps as <-.
+        constructor; [apply (Hx (S d) a Ht1 Ea)|apply (IHr Ht2 t eq_refl)]. }
+    destruct (join_all (S d) l) as [ps|]; [|discriminate]. specialize (Hall ps eq_refl).
+    destruct ps as [|p [|q r]].
+    + injection Hj as <-. reflexivity.
+    + injection Hj as <-. inversion Hall as [|? ? Hp _]; subst.
+      apply (trimmedb_app_sep p sep []); [exact Hp|reflexivity|exact Hws].
+    + injection Hj as <-. apply (trimmedb_join_char sep (p :: q :: r)); assumption.
+Qed.
+
+Lemma trim_trimmed x : nv_trimmed x = true -> trim x = x.
+Proof.
+  induction x as [s|l IH] using nv_ind'; intros H.
+  - cbn [trim]. rewrite (trimmedb_strip s H). reflexivity.
+  - cbn [trim]. f_equal. cbn [nv_trimmed] in H. induction IH as [|x r Hx Hr IHr]; [reflexivity|].
+    cbn [forallb] in H. apply andb_true_iff in H as [H1 H2]. cbn [map]. rewrite (Hx H1), (IHr H2). reflexivity.
+Qed.
+
+(* C08's round trip, in the form the row parser uses it *)
+Lemma cell_roundtrip x s :
+  wfb x = true -> nv_trimmed x = true -> join_cell x = Ok s -> cell_parse s = x.
+Proof.
+  intros Hw Ht Hj. unfold join_cell in Hj.
+  destruct (list_roundtrip x Hw) as [txt [J P]]. rewrite J in Hj. injection Hj as <-.
+  unfold cell_parse. rewrite (trimmedb_strip txt (join_trimmed x 0 txt Ht J)), P. apply trim_trimmed, Ht.
+Qed.
+
+(* ---- decoding what to_nested_list wrote (assign_value on the parsed cell) *)
+Lemma mapR_ok_inv {E X T} (f : X -> result E T) x r ys :
+  mapR f (x :: r) = Ok ys -> exists y yr, f x = Ok y /\ mapR f r = Ok yr /\ ys = y :: yr.
+Proof.
+  cbn [mapR]. destruct (f x) as [y|e]; [|discriminate]. destruct (mapR f r) as [yr|e]; [|discriminate].
+  intros H. injection H as <-. eauto.
+Qed.
+
+Lemma rmap_ok_inv {E S T} (f : S -> T) (r : result E S) y : rmap f r = Ok y -> exists x, r = Ok x /\ y = f x.
+Proof. destruct r as [x|e]; [|discriminate]. intros H. injection H as <-. eauto. Qed.
+
+Lemma bind_ok_inv {E S T} (r : result E S) (f : S -> result E T) y :
+  bind r f = Ok y -> exists x, r = Ok x /\ f x = Ok y.
+Proof. destruct r as [x|e]; [|discriminate]. intros H. eauto. Qed.
+
+Definition assign_elem (t' : ty) (e : nv) : res out := do r <- assign_value t' e; Ok (or_none r).
+
+Lemma assign_value_list t' l :
+  assign_value (TList t') (Lst l) = do outs <- mapR (assign_elem t') l; Ok (Some (OList outs)).
+Proof. reflexivity. Qed.
+
+Lemma decode_basics t' : is_basic_ty t' = true -> forall l xs,
+  forallb (basic_ok t') l = true -> mapR (to_nv t') l = Ok xs ->
+  mapR (assign_elem t') xs = Ok (map (enc t') l).
+Proof.
+  intros Ht. induction l as [|v r IH]; intros xs Hok Hx.
+  - injection Hx as <-. reflexivity.
+  - apply mapR_ok_inv in Hx as (y & yr & Hy & Hr & ->).
+    cbn [forallb] in Hok. apply andb_true_iff in Hok as [Hv Hok].
+    rewrite (to_nv_basic t' v Ht) in Hy. apply rmap_ok_inv in Hy as (s & Hs & ->).
+    destruct (basic_decode t' v s Ht Hv Hs) as [_ Hd].
+    cbn [mapR map]. unfold assign_elem at 1. rewrite Hd. cbn [bind or_none]. rewrite (IH yr Hok Hr). reflexivity.
+Qed.
+
+Lemma decode_list_basics b l x :
+  is_basic_ty b = true -> forallb (basic_ok b) l = true -> to_nv (TList b) (VList l) = Ok x ->
+  assign_value (TList b) x = Ok (Some (enc (TList b) (VList l))).
+Proof.
+  intros Hb Hok Hx. cbn [to_nv] in Hx. apply rmap_ok_inv in Hx as (xs & Hxs & ->).
+  rewrite assign_value_list, (decode_basics b Hb l xs Hok Hxs). reflexivity.
+Qed.
+
+Lemma decode_list_lists b : is_basic_ty b = true -> forall l xs,
+  forallb (fun e => match e with VList l2 => forallb (basic_ok b) l2 | _ => false end) l = true ->
+  mapR (to_nv (TList b)) l = Ok xs ->
+  mapR (assign_elem (TList b)) xs = Ok (map (enc (TList b)) l).
+Proof.
+  intros Hb. induction l as [|v r IH]; intros xs Hok Hx.
+  - injection Hx as <-. reflexivity.
+  - apply mapR_ok_inv in Hx as (y & yr & Hy & Hr & ->).
+    cbn [forallb] in Hok. apply andb_true_iff in Hok as [Hv Hok].
+    destruct v as [| | | |l2|]; try discriminate.
+    cbn [mapR map]. unfold assign_elem at 1. rewrite (decode_list_basics b l2 y Hb Hv Hy).
+    cbn [bind or_none]. rewrite (IH yr Hok Hr). reflexivity.
+Qed.
+
+Lemma decode_u v : forall x, to_nv_u v = Ok x -> nv_to_out x = enc_u v.
+Proof.
+  induction v as [s|z|s|b|l IH|fs IH] using value_ind'; intros x Hx; try discriminate.
+  - injection Hx as <-. reflexivity.
+  - cbn [to_nv_u] in Hx. apply rmap_ok_inv in Hx as (xs & Hxs & ->). cbn [nv_to_out enc_u]. f_equal.
+    revert xs Hxs. induction IH as [|v r Hv Hr IHr]; intros xs Hxs.
+    + injection Hxs as <-. reflexivity.
+    + apply mapR_ok_inv in Hxs as (y & yr & Hy & Hyr & ->). cbn [map]. rewrite (Hv y Hy), (IHr yr Hyr). reflexivity.
+Qed.
+
+(* models: key;value pairs *)
+Lemma nodup_str_NoDup l : nodup_str l = true -> NoDup l.
+Proof.
+  induction l as [|x r IH]; [constructor|]. cbn [nodup_str]. intros H.
+  apply andb_true_iff in H as [H1 H2]. constructor; [|apply IH, H2].
+  apply negb_true_iff in H1. intros Hin. assert (existsb (str_eqb x) r = true); [|congruence].
+  apply existsb_exists. exists x. split; [exact Hin|apply str_eqb_refl].
+Qed.
+
+Lemma field_lookup_in {A} (f : ty -> option value -> A) fields n tf d :
+  NoDup (map f_name fields) -> In (n, (tf, d)) fields -> field_lookup f fields n = Some (f tf d).
+Proof.
+  induction fields as [|[n2 [t2 d2]] r IH]; [intros _ []|].
+  cbn [map f_name fst]. intros Hnd Hin. inversion Hnd as [|? ? Hnot Hnd']; subst.
+  cbn [field_lookup]. destruct Hin as [Heq|Hin].
+  - injection Heq as -> -> ->. rewrite str_eqb_refl. reflexivity.
+  - destruct (str_eqb n2 n) eqn:E; [|apply IH; assumption].
+    apply str_eqb_eq in E. subst n2. exfalso. apply Hnot.
+    apply in_map_iff. exists (n, (tf, d)). split; [reflexivity|exact Hin].
+Qed.
+
+Lemma to_nv_fields_shape fds : forall fs xs,
+  to_nv_fields fds fs = Ok xs -> Forall (fun e => exists n x, e = Lst [Str n; x]) xs.
+Proof.
+  induction fds as [|[n [tf d]] r IH]; intros [|[n' v'] fs'] xs H; cbn [to_nv_fields] in H; try discriminate.
+  - injection H as <-. constructor.
+  - destruct (negb (str_eqb n n')); [discriminate|]. destruct (is_default d v'); [apply (IH fs' xs H)|].
+    apply bind_ok_inv in H as (x & Hx & H). apply bind_ok_inv in H as (rr & Hr & H). injection H as <-.
+    constructor; [eauto|apply (IH fs' rr Hr)].
+Qed.
+
+Lemma as_kwarg_pairs fields h2f xs :
+  Forall (fun e => exists n x, e = Lst [Str n; x]) xs -> as_kwarg fields h2f (Lst xs) = None.
+Proof.
+  intros H. destruct xs as [|e1 r]; [reflexivity|].
+  inversion H as [|? ? (n & x & ->) _]; subst. reflexivity.
+Qed.
+
+Lemma decode_fields fields h2f : NoDup (map f_name fields) -> forall fds fs xs i d0,
+  (forall f, In f fds -> In f fields) ->
+  NoDup (map f_name fds) ->
+  (forall f, In f fds -> dget d0 (f_name f) = None) ->
+  fields_packable fds h2f fs = true -> to_nv_fields fds fs = Ok xs ->
+  assign_go fields h2f xs i d0 = Ok (d0 ++ enc_fields fds fs).
+Proof.
+  intros Hnd. induction fds as [|[n [tf d]] r IH]; intros [|[n' v'] fs'] xs i d0 Hsub Hnd2 Hfresh Hp Hx;
+    cbn [fields_packable to_nv_fields] in *; try discriminate.
+  - injection Hx as <-. cbn [assign_go enc_fields]. rewrite app_nil_r. reflexivity.
+  - apply andb_true_iff in Hp as [Hp Hp3]. apply andb_true_iff in Hp as [Hp1 Hp2].
+    rewrite Hp1 in Hx. cbn [negb] in Hx. cbn [map f_name fst] in Hnd2. inversion Hnd2 as [|? ? Hnot Hnd3]; subst.
+    assert (Hsub' : forall f, In f r -> In f fields) by (intros f Hf; apply Hsub; right; exact Hf).
+    cbn [enc_fields]. destruct (is_default d v') eqn:Ed.
+    + apply (IH fs' xs i d0 Hsub' Hnd3); [intros f Hf; apply Hfresh; right; exact Hf|exact Hp3|exact Hx].
+    + apply andb_true_iff in Hp2 as [Hp2 Hk]. apply andb_true_iff in Hp2 as [Hb Hok].
+      apply str_eqb_eq in Hk.
+      apply bind_ok_inv in Hx as (x & Hxv & Hx). apply bind_ok_inv in Hx as (rr & Hr & Hx). injection Hx as <-.
+      rewrite (to_nv_basic tf v' Hb) in Hxv. apply rmap_ok_inv in Hxv as (s & Hs & ->).
+      destruct (basic_decode tf v' s Hb Hok Hs) as [_ Hd].
+      assert (Hin : In (n, (tf, d)) fields) by (apply Hsub; left; reflexivity).
+      cbn [assign_go as_kwarg]. rewrite Hk. unfold has_field.
+      rewrite (field_lookup_in (fun _ _ => tt) fields n tf d Hnd Hin).
+      unfold by_name. rewrite (field_lookup_in (fun tf0 _ => assign_value tf0 (Str s)) fields n tf d Hnd Hin).
+      rewrite Hd. cbn [bind dset_opt].
+      assert (Hfn : dget d0 n = None) by (apply (Hfresh (n, (tf, d))); left; reflexivity).
+      rewrite (dset_absent d0 n _ Hfn).
+      rewrite (IH fs' rr (S i) (d0 ++ [(n, enc tf v')]) Hsub' Hnd3); [rewrite <- app_assoc; reflexivity| |exact Hp3|exact Hr].
+      intros f Hf. rewrite dget_app_none by (apply Hfresh; right; exact Hf).
+      unfold dget. cbn [oget]. destruct (str_eqb n (f_name f)) eqn:E; [|reflexivity].
+      apply str_eqb_eq in E. exfalso. apply Hnot. rewrite E. apply in_map. exact Hf.
+Qed.
+
+Lemma decode_model fields h2f f2h fs x :
+  nodup_names fields = true -> fields_packable fields h2f fs = true ->
+  to_nv (TModel fields h2f f2h) (VModel fs) = Ok x ->
+  assign_value (TModel fields h2f f2h) x = Ok (Some (enc (TModel fields h2f f2h) (VModel fs))).
+Proof.
+  intros Hnd Hp Hx. rewrite to_nv_model in Hx. apply rmap_ok_inv in Hx as (xs & Hxs & ->).
+  apply nodup_str_NoDup in Hnd.
+  rewrite assign_value_model. cbn zeta.
+  rewrite (as_kwarg_pairs fields h2f xs (to_nv_fields_shape fields fs xs Hxs)).
+  rewrite (decode_fields fields h2f Hnd fields fs xs O [] (fun f H => H) Hnd (fun f _ => eq_refl) Hp Hxs).
+  rewrite enc_model. reflexivity.
+Qed.
+
+(* a compound value packed into one cell reads back *)
+Lemma leaf_packed t v s cur :
+  is_basic_ty t = false -> packed_ok t v = true -> write_text t v = Ok s ->
+  leaf_assign t (Raw s) cur = Ok (enc t v).
+Proof.
+  intros Ht Hp Hs. unfold write_text in Hs. rewrite Ht in Hs.
+  apply bind_ok_inv in Hs as (x & Hx & Hj).
+  assert (Hlv : leaf_value t (Raw s) = cell_parse s).
+  { unfold leaf_value. destruct t; try discriminate; reflexivity. }
+  unfold leaf_assign. rewrite Hlv.
+  assert (Hgen : wfb x = true -> nv_trimmed x = true ->
+                 assign_value t x = Ok (Some (enc t v)) ->
+                 (do r <- assign_value t (cell_parse s); Ok match r with Some o => o | None => cur end) = Ok (enc t v)).
+  { intros Hw Htr Ha. rewrite (cell_roundtrip x s Hw Htr Hj), Ha. reflexivity. }
+  destruct t as [| | | | |t'|fields h2f f2h]; try discriminate; destruct v as [| | | |l|fs]; try discriminate.
+  - (* bare list *)
+    unfold packed_ok in Hp. rewrite Hx in Hp.
+    apply andb_true_iff in Hp as [Hp _]. apply andb_true_iff in Hp as [Hw Htr].
+    apply (Hgen Hw Htr). cbn [to_nv] in Hx. apply rmap_ok_inv in Hx as (xs & Hxs & ->).
+    cbn [assign_value enc]. do 3 f_equal. clear -Hxs. revert xs Hxs.
+    induction l as [|v r IH]; intros xs Hxs.
+    + injection Hxs as <-. reflexivity.
+    + apply mapR_ok_inv in Hxs as (y & yr & Hy & Hyr & ->). cbn [map].
+      rewrite (decode_u v y Hy), (IH yr Hyr). reflexivity.
+  - (* typed list *)
+    destruct l as [|e l'].
+    + cbn [to_nv mapR rmap] in Hx. injection Hx as <-. unfold join_cell in Hj. cbn in Hj. injection Hj as <-.
+      reflexivity.
+    + unfold packed_ok in Hp. rewrite Hx in Hp.
+      apply andb_true_iff in Hp as [Hp He]. apply andb_true_iff in Hp as [Hw Htr].
+      apply (Hgen Hw Htr). unfold elems_packable in He.
+      destruct (is_basic_ty t') eqn:Hb.
+      * apply decode_list_basics; assumption.
+      * destruct t' as [| | | | |b|]; try discriminate. apply andb_true_iff in He as [Hb2 He].
+        cbn [to_nv] in Hx. apply rmap_ok_inv in Hx as (xs & Hxs & ->).
+        rewrite assign_value_list, (decode_list_lists b Hb2 (e :: l') xs He Hxs). reflexivity.
+  - (* model *)
+    unfold packed_ok in Hp. rewrite Hx in Hp.
+    apply andb_true_iff in Hp as [Hp He]. apply andb_true_iff in Hp as [Hw Htr].
+    apply andb_true_iff in He as [Hnd Hf].
+    apply (Hgen Hw Htr). apply decode_model; assumption.
+Qed.
+
+Lemma leaf_ok t v s cur :
+  (if is_basic_ty t then basic_ok t v else packed_ok t v) = true -> write_text t v = Ok s ->
+  leaf_assign t (Raw s) cur = Ok (enc t v).
+Proof.
+  destruct (is_basic_ty t) eqn:Ht; intros H Hs; [apply leaf_basic|apply leaf_packed]; assumption.
+Qed.
